@@ -61,9 +61,9 @@ func main() {
 	case "C01":
 		c.roundTrip(all, n)
 	case "C02":
-		c.encodeSide(c.accepted("maps", "lists", "scalars", "byvalue", "recursive", "spellings", "random", "leaf", "ids"), n, false)
+		c.encodeSide(c.accepted("maps", "lists", "scalars", "byvalue", "recursive", "spellings", "random", "leaf", "ids", "wide"), n, false)
 	case "C03":
-		c.decodeSide(c.accepted("evolution", "evomix", "empty", "recursive", "maps", "lists", "scalars", "byvalue", "ids", "random", "defaults"), n, false)
+		c.decodeSide(c.accepted("evolution", "evomix", "empty", "recursive", "maps", "lists", "scalars", "byvalue", "ids", "random", "defaults", "wide"), n, false)
 	case "C04":
 		c.encodeSide(all, n, true)
 	case "C05":
@@ -90,15 +90,15 @@ func main() {
 		c.bigByValueStorm()
 		c.descMapOps(200 * n)
 	case "C09":
-		c.requiredFields(c.accepted("ids", "recursive", "leaf", "byvalue", "evolution", "random", "scalars", "maps", "spellings"), 3*n)
+		c.requiredFields(c.accepted("ids", "recursive", "leaf", "byvalue", "evolution", "random", "scalars", "maps", "spellings", "wide"), 3*n)
 		c.poolResidue(c.accepted("ids", "recursive", "leaf", "evolution"), 150*n)
 		c.bitsetOps(40 * n)
 	case "C10":
 		c.encodeSide(c.accepted("defaults", "scalars", "leaf", "byvalue"), 4*n, false)
-		c.decodeSide(c.accepted("defaults", "byvalue", "maps", "lists"), 2*n, false)
+		c.decodeSide(c.accepted("defaults", "byvalue", "maps", "lists", "nocopy"), 2*n, false)
 		c.roundTrip(c.accepted("defaults", "byvalue"), 2*n)
 	case "C11":
-		c.decodeSide(c.accepted("evolution", "evomix", "empty", "recursive", "leaf", "byvalue", "random"), 3*n, true)
+		c.decodeSide(c.accepted("evolution", "evomix", "empty", "recursive", "leaf", "byvalue", "random", "wide"), 3*n, true)
 	case "C12":
 		c.resolveAll(false)
 		c.encodeSide(c.accepted("spellings"), 2*n, false)
